@@ -6,7 +6,12 @@
       when the model's margin exceeds 1e-9; otherwise the case is counted under a 9xx tag and not compared;
     - debug builds: the crate panics in a [debug_assert!] exactly when the model's [*_debug_ok] is false.
     The shape is rebuilt from the *fields of the constructed object* (read through the verification hooks),
-    the constructors are checked separately. *)
+    the constructors are checked separately.
+    Every call is evaluated twice: by the recomposition from the model's components (which yields the path tag and the
+    margins of the libm-dependent decisions), and by the NAMED definition of the model for that very call
+    ([sphere_intersect_local_ray], [sphere_simple_intersect_local_ray], [sphere_intersect], [sphere_simple_intersect],
+    [sphere_info], [sphere_world_bounds], [sphere_centre], their [cyl_*] counterparts, [cyl_new]), compared with the
+    crate's result under the same tolerance policy; both must agree with the crate. *)
 From G3 Require Import Run.Harness Model.Vec Model.BBox Model.RoundError Model.Transform Model.Hit Model.Sphere Model.Cylinder.
 From G3 Require Import Run.C06.
 
@@ -67,28 +72,35 @@ Record shape := mkShape {
   sh_dpdv : V3 K -> V3 K;
   sh_libm_info : bool;                 (* do dpdv / normal pass through libm? *)
   sh_pole : V3 K -> bool;              (* hit inside the band where sin(theta) is numerically meaningless *)
-  sh_tr : option (Tr K) }.
+  sh_tr : option (Tr K);
+  (* the named definitions of the model for the public calls *)
+  nm_local_info : Ray K -> V3 K -> V3 K -> option (Info K);      (* intersect_local_ray *)
+  nm_local_simple : Ray K -> V3 K -> V3 K -> option (V3 K);      (* simple_intersect_local_ray *)
+  nm_world_info : Ray K -> option (Info K);                      (* intersect *)
+  nm_world_simple : Ray K -> option (V3 K);                      (* simple_intersect *)
+  nm_info : Ray K -> V3 K -> K -> Info K }.                      (* intersection_info *)
 Definition shape_of (is_cyl : bool) (p : list spec_float) : shape :=
   if is_cyl then
     let c := cyl_of p in
     mkShape (cyl_basic_tag c) (cyl_clear c) (cyl_basic_debug_ok c) (cyl_dpdu c) (cyl_dpdv c) false (fun _ => false) (ctransform c)
+            (cyl_intersect_local_ray c) (cyl_simple_intersect_local_ray c) (cyl_intersect c) (cyl_simple_intersect c) (cyl_info c)
   else
     let s := sphere_of p in
     mkShape (sphere_basic_tag s) (sphere_clear s) (sphere_basic_debug_ok s) (sphere_dpdu s) (sphere_dpdv s) true
-            (fun q => negb (PrimFloat.ltb 0x1p-20 (abs (sphere_sin_theta s q)))) (stransform s).
+            (fun q => negb (PrimFloat.ltb 0x1p-20 (abs (sphere_sin_theta s q)))) (stransform s)
+            (sphere_intersect_local_ray s) (sphere_simple_intersect_local_ray s) (sphere_intersect s) (sphere_simple_intersect s)
+            (sphere_info s).
 
 Definition info_list (i : Info K) : list K :=
   v_list (ip i) ++ v_list (inormal i) ++ [side_code (iside i)] ++ v_list (idpdu i) ++ v_list (idpdv i).
 
 (** compare an [Info]: expected layout [p(3) n(3) side dpdu(3) dpdv(3)].
     Returns 0 mismatch, 1 everything compared, 2 side/normal skipped for margin, 3 pole band (only p, dpdu) *)
-Definition cmp_info (sh : shape) (ray : Ray K) (phit : V3 K) (tr : option (Tr K)) (e : list spec_float) : N :=
+Definition cmp_info_val (sh : shape) (ray : Ray K) (phit : V3 K) (i : Info K) (e : list spec_float) : N :=
   let dpdu := sh_dpdu sh phit in
   let dpdv := sh_dpdv sh phit in
   let n0v := vnormalize (vcross dpdv dpdu) in
   let dot := vdot n0v (rdir ray) in
-  let i := info_new ray phit dpdu dpdv in
-  let i := match tr with Some t => info_transform i t | None => i end in
   let p_ok := exact_eq (v_list (ip i)) (slice e 0 3) in
   let du_ok := exact_eq (v_list (idpdu i)) (slice e 7 3) in
   if negb (sh_libm_info sh) then
@@ -100,9 +112,25 @@ Definition cmp_info (sh : shape) (ray : Ray K) (phit : V3 K) (tr : option (Tr K)
       (if p_ok && du_ok && dv_ok && closeL toln (v_list (inormal i)) (slice e 3 3)
           && exact_eq [side_code (iside i)] (slice e 6 1) then 1 else 0)%N
     else (if p_ok && du_ok && dv_ok then 2 else 0)%N.
+(** the recomposition: [info_new] on the model's [dpdu] / [dpdv] at the local hit point, then [info_transform] *)
+Definition cmp_info (sh : shape) (ray : Ray K) (phit : V3 K) (tr : option (Tr K)) (e : list spec_float) : N :=
+  let i := info_new ray phit (sh_dpdu sh phit) (sh_dpdv sh phit) in
+  let i := match tr with Some t => info_transform i t | None => i end in
+  cmp_info_val sh ray phit i e.
+(** the same comparison on the value of a named definition; [None] where the recomposition found a hit is a disagreement *)
+Definition cmp_named_info (sh : shape) (ray : Ray K) (phit : V3 K) (o : option (Info K)) (e : list spec_float) : N :=
+  match o with Some i => cmp_info_val sh ray phit i e | None => 0%N end.
+Definition named_pt_ok (o : option (V3 K)) (e : list spec_float) : bool :=
+  match o with Some q => exact_eq (v_list q) (slice e 0 3) | None => false end.
+Definition is_none {A} (o : option A) : bool := match o with None => true | Some _ => false end.
 
-(** ops: 1 basic (local), 2 intersect_local_ray, 3 intersect (world), 4 simple_intersect (world).
-    [flag] = outcome (0 None, 1 Some, 2 panic) + 10 when the crate was built with debug assertions. *)
+(** ops: 1 basic (local), 2 intersect_local_ray, 3 intersect (world), 4 simple_intersect (world),
+    6 simple_intersect_local_ray (local ray with its error boxes).
+    [flag] = outcome (0 None, 1 Some, 2 panic) + 10 when the crate was built with debug assertions.
+    Tags (+ 1000 for cylinders): 100 * op + the tag of [select_hit] (1 no real root, 2 both behind, 3 t0, 4 t0 clipped -> t1,
+    5 both clipped, 6 t1 (t0 behind), 7 t1 clipped), the recomposition and the named definition of the call both agreeing
+    with the crate; 800 + op debug assertion predicted and observed; 900 + op phi decision inside the libm margin (not
+    compared); 950 + op pole band (only p and dpdu compared); 960 + op side / normal inside the margin (not compared). *)
 Definition chk_hit (is_cyl : bool) (op : N) (p i : list spec_float) (flag : N) (e : list spec_float) : N :=
   let sh := shape_of is_cyl p in
   let debug := N.leb 10 flag in
@@ -110,7 +138,7 @@ Definition chk_hit (is_cyl : bool) (op : N) (p i : list spec_float) (flag : N) (
   let ray0 := mkRay (v_of i 0) (v_of i 3) in
   let '(ray, oe, de) :=
     match op with
-    | 1 | 2 => (ray0, v_of i 6, v_of i 9)
+    | 1 | 2 | 6 => (ray0, v_of i 6, v_of i 9)
     | 3 => match sh_tr sh with Some t => tr_inv_ray t ray0 | None => (ray0, vzero, vzero) end
     | _ => match sh_tr sh with Some t => tr_inv_ray t ray0 | None => tr_inv_ray tr_new ray0 end
     end%N in
@@ -130,18 +158,52 @@ Definition chk_hit (is_cyl : bool) (op : N) (p i : list spec_float) (flag : N) (
   else if debug && negb dbg_ok then (if pole then 950 + op else 0)%N
   else
   match r with
-  | None => if N.eqb outcome 0 then (100 * op + tag)%N else 0%N
+  | None =>
+    (* the named definition of the call must report no hit either *)
+    let named_none :=
+      match op with
+      | 2 => is_none (nm_local_info sh ray0 oe de)
+      | 3 => is_none (nm_world_info sh ray0)
+      | 4 => is_none (nm_world_simple sh ray0)
+      | 6 => is_none (nm_local_simple sh ray0 oe de)
+      | _ => true
+      end%N in
+    if N.eqb outcome 0 && named_none then (100 * op + tag)%N else 0%N
   | Some (phit, phi) =>
     if negb (N.eqb outcome 1) then 0%N else
     match op with
     | 1 => if exact_eq (v_list phit) (slice e 0 3) && close1 tolc phi (fl e 3) then (100 * op + tag) else 0
     | 4 => let pw := match tr with Some t => tr_pt t phit | None => phit end in
-           if exact_eq (v_list pw) (slice e 0 3) then (100 * op + tag) else 0
-    | _ => match cmp_info sh ray phit tr e with
+           if exact_eq (v_list pw) (slice e 0 3) && named_pt_ok (nm_world_simple sh ray0) e then (100 * op + tag) else 0
+    | 6 => if exact_eq (v_list phit) (slice e 0 3) && named_pt_ok (nm_local_simple sh ray0 oe de) e then (100 * op + tag) else 0
+    | _ => let named := if N.eqb op 2 then nm_local_info sh ray0 oe de else nm_world_info sh ray0 in
+           let k := cmp_info sh ray phit tr e in
+           (* same value, same tolerance policy, hence the same verdict *)
+           if negb (N.eqb k (cmp_named_info sh ray phit named e)) then 0 else
+           match k with
            | 0 => 0 | 1 => 100 * op + tag | 2 => 960 + op | _ => 950 + op
            end
     end%N
   end.
+
+(** op 7: [intersection_info(ray, phit, phi)] called on its own ([i] = ray(6) phit(3) phi); always [Some] in the crate.
+    The named [sphere_info] / [cyl_info] against the crate, with the policy of [cmp_info_val].
+    Tags: 701 compared in full, 957 pole band, 967 side / normal inside the margin, 807 debug assertion of get_side predicted
+    and observed (957 when in the pole band). *)
+Definition chk_info (is_cyl : bool) (p i : list spec_float) (flag : N) (e : list spec_float) : N :=
+  let sh := shape_of is_cyl p in
+  let debug := N.leb 10 flag in
+  let outcome := (flag mod 10)%N in
+  let ray := mkRay (v_of i 0) (v_of i 3) in
+  let phit := v_of i 6 in
+  let pole := sh_libm_info sh && sh_pole sh phit in
+  let dbg_ok := info_new_debug_ok (sh_dpdu sh phit) (sh_dpdv sh phit) in
+  if N.eqb outcome 2 then (if pole then 957 else if debug && negb dbg_ok then 807 else 0)%N
+  else if debug && negb dbg_ok then (if pole then 957 else 0)%N
+  else if negb (N.eqb outcome 1) then 0%N
+  else match cmp_info_val sh ray phit (nm_info sh ray phit (fl i 9)) e with
+       | 0 => 0 | 1 => 701 | 2 => 967 | _ => 957
+       end%N.
 
 (** constructors.  Sphere variants: 0 new(r, centre), 1 new_partial(r, centre, zmin, zmax, phi),
     2 new_transformed(r, T), 3 new_partial_transformed(r, zmin, zmax, phi, T).
@@ -194,8 +256,9 @@ Definition chk_cyl_ctor (variant : N) (a : list spec_float) (flag : N) (e : list
     | Err _ => 0%N
     end
   | _ =>
-    let phi := if N.eqb variant 0 then 360 else fl a 7 in
-    match cyl_new_partial (v_of a 0) (v_of a 3) (fl a 6) phi, cyl_new_partial_pinned (v_of a 0) (v_of a 3) (fl a 6) phi with
+    (* variant 0 = Cylinder3D::new: the named [cyl_new] ([cyl_new_pinned] for the composition order of the pinned snapshot) *)
+    match (if N.eqb variant 0 then cyl_new (v_of a 0) (v_of a 3) (fl a 6) else cyl_new_partial (v_of a 0) (v_of a 3) (fl a 6) (fl a 7)),
+          (if N.eqb variant 0 then cyl_new_pinned (v_of a 0) (v_of a 3) (fl a 6) else cyl_new_partial_pinned (v_of a 0) (v_of a 3) (fl a 6) (fl a 7)) with
     | Ok c, Ok c' =>
       if negb (N.eqb (flag mod 10) 1) then 0%N else
       (* zmax = |p1-p0| is a sqrt: exact *)
@@ -219,6 +282,25 @@ Definition chk_aux (is_cyl : bool) (p : list spec_float) (flag : N) (e : list sp
   else if debug && negb dbg_ok then 0%N
   else if exact_eq out e then 500%N else 0%N.
 
+(** op 8: [world_bounds()] and, for spheres, [centre()]; expected [min(3) max(3)] (++ [centre(3)]): the named
+    [sphere_world_bounds] / [sphere_centre] / [cyl_world_bounds], bit for bit (the matrices are the crate's own).
+    Debug builds: [transform_pt] asserts that the homogeneous coordinate is 1, which fails on a non-finite corner (a shape
+    of infinite radius): the crate panics exactly when [*_world_bounds_debug_ok] / [sphere_centre_debug_ok] is false.
+    Tags: 510 no transform attached, 511 with a transform, 808 debug assertion predicted and observed (+ 1000 for cylinders). *)
+Definition chk_wb (is_cyl : bool) (p : list spec_float) (flag : N) (e : list spec_float) : N :=
+  let debug := N.leb 10 flag in
+  let outcome := (flag mod 10)%N in
+  let '(out, has_tr, dbg_ok) :=
+    if is_cyl then let c := cyl_of p in
+      (bb_out (cyl_world_bounds c), match ctransform c with Some _ => true | None => false end, cyl_world_bounds_debug_ok c)
+    else let s := sphere_of p in
+      (bb_out (sphere_world_bounds s) ++ v_list (sphere_centre s), match stransform s with Some _ => true | None => false end,
+       sphere_world_bounds_debug_ok s && sphere_centre_debug_ok s) in
+  if N.eqb outcome 2 then (if debug && negb dbg_ok then 808 else 0)%N
+  else if debug && negb dbg_ok then 0%N
+  else if negb (N.eqb outcome 1) then 0%N
+  else if exact_eq out e then (if has_tr then 511 else 510)%N else 0%N.
+
 (** case = (code, params, inputs, flag, expected); code = 100 * shape + 10 * variant + op *)
 Definition chk (c : N * list spec_float * list spec_float * N * list spec_float) : N :=
   let '(code, p, i, flag, e) := c in
@@ -228,6 +310,8 @@ Definition chk (c : N * list spec_float * list spec_float * N * list spec_float)
   match op with
   | 0 => if is_cyl then chk_cyl_ctor variant p flag e else chk_sphere_ctor variant p flag e
   | 5 => let t := chk_aux is_cyl p flag e in if N.eqb t 0 then 0%N else (if is_cyl then 1000 + t else t)%N
+  | 7 => let t := chk_info is_cyl p i flag e in if N.eqb t 0 then 0%N else (if is_cyl then 1000 + t else t)%N
+  | 8 => let t := chk_wb is_cyl p flag e in if N.eqb t 0 then 0%N else (if is_cyl then 1000 + t else t)%N
   | _ => let t := chk_hit is_cyl op p i flag e in if N.eqb t 0 then 0%N else (if is_cyl then 1000 + t else t)%N
   end%N.
 
